@@ -82,6 +82,7 @@ def gram_passes(pid, tier):
     if pid == 'C16':
         P.append(('NT2 T2 R<=3 W<=4, inputs<=4 over terminals + space, newline and a foreign byte (positions in the trace, lexer trace lines)', base + ['--nt', '2', '--t', '2', '--err', '0', '--maxR', '2' if q else '3', '--maxW', '4', '--maxlen', '4', '--rich']))
         P.append(('error-rule frames NT2 T2, strings<=4 plus the runs a^40, a^40 b, b a^40 b (long discard runs in the trace)', base + ['--nt', '2', '--t', '2', '--err', '1', '--maxR', '2' if q else '3', '--maxlen', '4', '--long-words', '40']))
+        P.append(('custom-lexer frames NT2 T2 R<=2 (with and without an error rule), inputs<=%d over {x,space,\\n}, every script of lexer answers: the verbose trace names exactly the terms the lexer delivered' % (3 if q else 4), base + ['--custom', '1', '--nt', '2', '--t', '2', '--err', '2', '--maxlen', '3' if q else '4', '--maxR', '2']))
     if pid == 'C08':
         P.append(('error-rule frames NT2 T2 R<=%d, strings<=%d' % (3 if q else 4, 4 if q else 8), base + ['--nt', '2', '--t', '2', '--err', '1', '--maxlen', '4' if q else '8', '--long-words', '40'] + (['--maxR', '3'] if q else [])))
         P.append(('error-rule frames NT2 T3, strings<=%d' % (4 if q else 6), base + ['--nt', '2', '--t', '3', '--err', '1', '--maxlen', '4' if q else '6']))
@@ -717,7 +718,7 @@ def run_c15(pid, tier, rep, deadline_s):
 def run_c08(pid, tier, rep, deadline_s):
     q = tier == 'quick'
     run_gram(pid, tier, rep, deadline_s); cov = dict(rep.coverage)
-    totals, samples, bounds, extra = run_progs(pid, rep, [dict(name='c08c', src='c08_compiled.cpp', args=[5 if q else 7], compilers=['g++'] if q else ['g++', 'clang++'], label='4 compiled grammars with error rules (README; two nesting levels; typed no_type separator; custom lexer) x inputs<=%d; depth sweeps; up to %d recoveries in one parse' % (5 if q else 7, 4096 if q else 70000))], deadline_s)
+    totals, samples, bounds, extra = run_progs(pid, rep, [dict(name='c08c', src='c08_compiled.cpp', args=[5 if q else 7], compilers=['g++'] if q else ['g++', 'clang++'], label='5 compiled grammars with error rules (README; two nesting levels; typed no_type separator; custom lexer; README with typed terms and functor-call accounting) x inputs<=%d; depth sweeps; up to %d recoveries in one parse' % (5 if q else 7, 4096 if q else 70000))], deadline_s)
     rep.coverage = merge_cov(cov, {'states': totals['cases'], 'transitions': totals['checks'], 'traces_validated_against_impl': totals['cases'], 'samples': samples, 'evaluations': totals['cases'], 'distinct_nontrivial': extra.get('recovered', 0) + extra.get('recovery_failed', 0), 'bounds': bounds,
                                    'exhaustive': all(b['completed'] for b in bounds), 'counters': extra, 'rule': 'Compiled part: four ordinary DSL grammars with error rules on every input up to the bound over their terminals, space and a foreign byte; result, value tree and every message (with position) must equal the documented driver + recovery on a reference LR(1) table.'})
 
@@ -772,7 +773,8 @@ def run_c09(pid, tier, rep, deadline_s):
 def run_c02(pid, tier, rep, deadline_s):
     q = tier == 'quick'
     run_gram(pid, tier, rep, deadline_s); cov = dict(rep.coverage)
-    totals, samples, bounds, extra = run_progs(pid, rep, [objects_spec('functors', q), dict(name='c02v', src='c02_values.cpp', args=[4 if q else 6], compilers=['g++'] if q else ['g++', 'clang++'], label='rules without functor (0-3 children of distinct types, initializer_list types), typed term, helper functors, functors returning lvalue references; inputs<=%d over 9 bytes' % (4 if q else 6))], deadline_s)
+    totals, samples, bounds, extra = run_progs(pid, rep, [objects_spec('functors', q), dict(name='c02v', src='c02_values.cpp', args=[4 if q else 6], compilers=['g++'] if q else ['g++', 'clang++'], label='rules without functor (0-3 children of distinct types, initializer_list types), typed term, helper functors, functors returning lvalue references; inputs<=%d over 9 bytes' % (4 if q else 6)),
+        dict(name='c08c', src='c08_compiled.cpp', args=[5 if q else 7], compilers=['g++'] if q else ['g++', 'clang++'], label='term functor accounting: typed terms (README grammar) and custom terms with an error rule, inputs<=%d: each term functor runs exactly once per term the documented driver shifts, never for a term skipped during recovery' % (5 if q else 7))], deadline_s)
     rep.coverage = merge_cov(cov, {'states': totals['cases'], 'transitions': totals['checks'], 'traces_validated_against_impl': totals['cases'], 'samples': samples, 'evaluations': totals['cases'], 'distinct_nontrivial': extra.get('accepted', 0), 'bounds': bounds,
                                    'exhaustive': all(b['completed'] for b in bounds), 'rule': 'Compiled part: a grammar whose rules have no functor (left-side value constructed from 0, 1, 2 and 3 right-side values of distinct types), a typed term and helper functors, on every input up to the bound; value and construction order are compared with an independent recursive-descent evaluator.'})
 
